@@ -1,8 +1,9 @@
 #!/usr/bin/env python3
 """Builds seeded/detection.json: for every kept seeded change, which property checks report a violation
 when the change is applied to a scratch copy of /repo's current working tree.  Every check is run on
-every seed (GBCHECK_REPO / GBCHECK_OUT keep /repo and /verif's evidence untouched)."""
-import json, os, subprocess, sys, tempfile, shutil, glob, concurrent.futures as cf
+every seed (one analyser process per seed, all 26 checks on one load; GBCHECK_REPO / GBCHECK_OUT keep
+/repo and /verif's evidence untouched)."""
+import json, os, subprocess, sys, tempfile, shutil, glob, re, concurrent.futures as cf
 HERE = os.path.dirname(os.path.dirname(os.path.abspath(__file__)))
 BIN = os.path.join(HERE, "bin", "gbcheck")
 props = [json.loads(l)["id"] for l in open(os.path.join(HERE, "properties.jsonl"))]
@@ -12,40 +13,44 @@ if only:
     seeds = [s for s in seeds if os.path.basename(s) in only]
 env0 = dict(os.environ, GOFLAGS="-mod=mod", GOPROXY="off", GOSUMDB="off", GOTOOLCHAIN="local", GOWORK="off", VERIF_DIR=HERE)
 
-def prepare(seed):
+def run(seed):
+    sid = os.path.basename(seed)
     tmp = tempfile.mkdtemp(prefix="seedmx-")
-    repo = os.path.join(tmp, "repo")
-    subprocess.run(["rsync", "-a", "--exclude", ".git", "--exclude", "testdata", "--exclude", "testresults", "--exclude", "screenshots", "/repo/", repo + "/"], check=True)
-    ok = subprocess.run(["patch", "-p1", "-s", "-f", "-d", repo, "-i", os.path.join(seed, "patch.diff")]).returncode == 0
-    return tmp, repo, ok
+    try:
+        repo = os.path.join(tmp, "repo")
+        subprocess.run(["rsync", "-a", "--exclude", ".git", "--exclude", "testdata", "--exclude", "testresults", "--exclude", "screenshots", "/repo/", repo + "/"], check=True)
+        if subprocess.run(["patch", "-p1", "-s", "-f", "-d", repo, "-i", os.path.join(seed, "patch.diff")]).returncode != 0:
+            return sid, None, None
+        out = os.path.join(tmp, "out")
+        os.makedirs(out)
+        p = subprocess.run([BIN, "multi", ",".join(props), "quick"], env=dict(env0, GBCHECK_REPO=repo, GBCHECK_OUT=out), capture_output=True, text=True)
+        det, rules = [], {}
+        cur = []
+        for l in p.stdout.splitlines():
+            if l.startswith("  ") and not l.startswith("    ") and "[" in l:
+                cur.append(l[l.rindex("[")+1:].split("]")[0])
+            m = re.match(r"RESULT (\S+) (\d+)", l)
+            if m:
+                if m.group(2) == "1":
+                    det.append(m.group(1))
+                    rules[m.group(1)] = sorted(set(cur))
+                elif m.group(2) != "0":
+                    rules[m.group(1)] = ["EXIT " + m.group(2)]
+                cur = []
+        if "RESULT" not in p.stdout:
+            rules["*"] = ["analyser failed: " + (p.stdout + p.stderr)[-300:]]
+        return sid, det, rules
+    finally:
+        shutil.rmtree(tmp, ignore_errors=True)
 
-def run(args):
-    seed, repo, prop, tmp = args
-    out = os.path.join(tmp, "out-" + prop)
-    os.makedirs(out, exist_ok=True)
-    p = subprocess.run([BIN, prop, "quick"], env=dict(env0, GBCHECK_REPO=repo, GBCHECK_OUT=out), capture_output=True, text=True)
-    kinds = set()
-    for l in p.stdout.splitlines():
-        if l.startswith("  ") and not l.startswith("    ") and "[" in l:
-            kinds.add(l[l.rindex("[")+1:].split("]")[0])
-    return os.path.basename(seed), prop, p.returncode, sorted(kinds)
-
-result = {}
-detail = {}
-with cf.ThreadPoolExecutor(max_workers=int(os.environ.get("JOBS", "10"))) as ex:
-    for seed in seeds:
-        tmp, repo, ok = prepare(seed)
-        sid = os.path.basename(seed)
-        if not ok:
+result, detail = {}, {}
+with cf.ThreadPoolExecutor(max_workers=int(os.environ.get("JOBS", "6"))) as ex:
+    for sid, det, rules in ex.map(run, seeds):
+        if det is None:
             print(sid, "DOES NOT APPLY", flush=True)
-            shutil.rmtree(tmp)
             continue
-        rs = list(ex.map(run, [(seed, repo, p, tmp) for p in props]))
-        result[sid] = [p for _, p, rc, _ in rs if rc == 1]
-        detail[sid] = {p: k for _, p, rc, k in rs if rc == 1}
-        odd = [p for _, p, rc, _ in rs if rc not in (0, 1)]
-        print(sid, "->", result[sid], ("ERRORS " + str(odd)) if odd else "", flush=True)
-        shutil.rmtree(tmp)
+        result[sid], detail[sid] = det, rules
+        print(sid, "->", det, {k: v for k, v in rules.items() if k not in det} or "", flush=True)
 if not only:
     json.dump(result, open(os.path.join(HERE, "seeded", "detection.json"), "w"), indent=1, sort_keys=True)
     json.dump(detail, open(os.path.join(HERE, "seeded", "detection_detail.json"), "w"), indent=1, sort_keys=True)
